@@ -11,9 +11,10 @@
    signatures are labels in N (equal labels iff equal bytes); the block state is the record
    [chain] of the two queries the code makes (GetHeader(h).Number, IsDescendantOf).
 
-   [verify_commit] mirrors the code after fixes/C18-1-duplicate-precommits.patch and
-   fixes/C18-2-forged-equivocators.patch; [verify_commit_prefix] is the code of the pinned tree
-   before them, kept for the refutation witnesses. *)
+   [verify_commit] mirrors the code after the three repairs (count each authority once; only
+   correctly signed precommits make an equivocator; strictly more than floor(2n/3) backers:
+   fixes/C18-3-commit-threshold-strict.patch); [verify_commit_prefix] is the code of the pinned
+   tree before them, kept for the refutation witnesses. *)
 From Coq Require Import List NArith Bool.
 Import ListNotations.
 Local Open Scope N_scope.
@@ -151,7 +152,7 @@ Definition verify_commit (c : chain) (auths : list N) (setid : N) (thr : N) (hf 
   | ROk _ =>
     match loop c auths (cm_vote m) l0 (entries m) with
     | RErr x => RErr x
-    | ROk st => if final_count st <? thr then RErr EMinVotes else ROk tt
+    | ROk st => if final_count st <=? thr then RErr EMinVotes else ROk tt
     end
   end.
 
@@ -270,8 +271,9 @@ Definition spec_count (c : chain) (auths : list N) (m : commit) : N :=
 Definition supermajority (c : chain) (auths : list N) (m : commit) : bool :=
   2 * N.of_nat (length auths) <? 3 * spec_count c auths m.
 
-(* the class of the recorded finding commit-threshold-not-strict: exactly floor(2n/3) backers *)
-Definition threshold_guard (c : chain) (auths : list N) (m : commit) : bool :=
+(* exactly floor(2n/3) backers: accepted by the pinned tree (`validAndEqv < threshold`), not a
+   supermajority *)
+Definition at_threshold (c : chain) (auths : list N) (m : commit) : bool :=
   spec_count c auths m =? threshold auths.
 
 (* the property predicate evaluated by the driver on the implementation's observables:
